@@ -8,12 +8,20 @@ wt = "/var/tmp/wk-mut-%d" % os.getpid()
 subprocess.run(["git", "-C", "/repo", "worktree", "add", "--detach", wt, "HEAD"], check=True, stdout=subprocess.DEVNULL, stderr=subprocess.DEVNULL)
 try:
     for m in spec:
-        p = os.path.join(wt, m["file"])
-        src = open(p).read()
-        if src.count(m["old"]) != 1:
-            print("MUTANT %s: pattern occurs %d times, skipped" % (m["name"], src.count(m["old"])), flush=True)
+        edits = m.get("edits") or [m]
+        bad = False
+        for e in edits:
+            p = os.path.join(wt, e["file"])
+            src = open(p).read()
+            if src.count(e["old"]) != 1:
+                print("MUTANT %s: pattern occurs %d times in %s, skipped" % (m["name"], src.count(e["old"]), e["file"]), flush=True)
+                bad = True
+                break
+            open(p, "w").write(src.replace(e["old"], e["new"]))
+        if bad:
+            subprocess.run(["git", "-C", wt, "checkout", "--", "."], check=True)
             continue
-        open(p, "w").write(src.replace(m["old"], m["new"]))
+        m["file"] = edits[0]["file"]
         b = subprocess.run(["go", "build", "./" + os.path.dirname(m["file"])], cwd=wt, capture_output=True, text=True, env=dict(os.environ, GOFLAGS="-mod=mod"))
         if b.returncode != 0:
             print("MUTANT %s: does not compile: %s" % (m["name"], b.stderr[-300:]), flush=True)
